@@ -73,8 +73,18 @@ def rule_effects(facts, rep):
             var = loops[0][0]["name"]
             esc = [n for n in hir.walk(loops[0][2]) if n.get("k") == "field" and n["name"] == "escape" and hir.simp(n["e"]).get("k") == "index"
                    and hir.is_def(hir.simp(n["e"])["e"], "effect::METADATA") and hir.is_local(hir.simp(n["e"])["i"], var)]
-            sinks = [n for n in hir.walk(loops[0][2]) if n.get("k") == "call" and hir.callee(n).split("::")[-1] == sink]
-            ok = len(esc) == 1 and len(sinks) == 1
+            sinks = [n for n in hir.walk(b["hir"]) if n.get("k") == "call" and hir.callee(n).split("::")[-1] in ("write_str", "write_all", "write", "write_fmt", "write_char")]
+            ok = len(esc) == 1 and len(sinks) == 1 and hir.callee(sinks[0]).split("::")[-1] == sink
+            # the loop body is exactly `sink(METADATA[index].escape)?`: unconditional, unbuffered, error propagated
+            st = hir.stmts_of(loops[0][2])
+            one = len(st) == 1 and hir.try_inner(hir.simp(st[0])) is not None and hir.simp(hir.try_inner(hir.simp(st[0]))) is sinks[0] if ok else False
+            if one:
+                a = hir.peel(sinks[0]["args"][1])
+                if hir.is_call(a, "as_bytes"):
+                    a = hir.peel(a["args"][0])
+                one = a is esc[0] or hir.simp(a) is esc[0]
+            rep.check(bool(one), "effects", b["path"], "each-member's-escape-goes-straight-to-the-sink",
+                      f"loop body must be exactly `{sink}(METADATA[index].escape)?` — a conditional or buffered emission can drop a member's code", loc(b))
         rep.check(ok, "effects", b["path"], "emits-METADATA[index].escape-per-member", "", loc(b))
     # RESET
     r = facts.body("anstyle", "anstyle::reset::RESET")
